@@ -628,3 +628,96 @@ def run_subclass_case(bi, ji):
     except Exception:  # noqa: BLE001
         return False
     return True
+
+
+# ---- two faults at once in classes that have constructor logic of their own (code that runs before / outside the per-property wrapper)
+SMALL_JUNK = [None, 0, "x", [1], {"a": 1}, True, 2.5, [], ""]
+
+
+def _own_init_classes():
+    out = []
+    for (ver, cat, name, cls, kw) in GOOD:
+        if cat not in ("objects", "observables"):
+            continue
+        own = any("__init__" in vars(k) or "_check_object_constraints" in vars(k) for k in cls.__mro__
+                  if k.__module__.startswith("stix2.v2") and k.__name__ not in ("_STIXBase20", "_STIXBase21", "_DomainObject", "_RelationshipObject", "_Observable"))
+        if "__init__" in vars(cls) or (own and name in ("marking-definition", "relationship", "sighting", "indicator", "bundle", "observed-data", "language-content")):
+            out.append((ver, cat, name, cls, kw))
+    return out
+
+
+OWN = _own_init_classes()
+NOWN = len(OWN)
+
+
+def paired_faults(ci: int, allow: bool) -> bool:
+    """
+    pre: 0 <= ci < NOWN
+    post: _
+    """
+    ci, allow = pick(ci, NOWN), pickb(allow)
+    with Native():
+        ok = run_paired_faults(ci, allow)
+    V.reached()
+    return ok
+
+
+def run_paired_faults(ci, allow):
+    """every ordered pair of slots the class's own constructor logic looks at: the first removed, the second removed or of another JSON kind"""
+    ver, cat, name, cls, kw = OWN[ci]
+    base = json.loads(cls(**kw).serialize())
+    slots = [s_ for s_ in base if s_ not in ("id", "created", "modified", "spec_version")][:8]
+    before = reg_snapshot()
+    for a in slots:
+        for b in slots:
+            if a == b:
+                continue
+            for ja in (None, "keep"):
+                for jb in SMALL_JUNK + ["<deleted>"]:
+                    doc = dict(base)
+                    if ja is None:
+                        doc.pop(a, None)
+                    if jb == "<deleted>":
+                        doc.pop(b, None)
+                    else:
+                        doc[b] = copy.deepcopy(jb)
+                    for route in (0, 1):
+                        try:
+                            if route == 0:
+                                stix2.parse(doc, allow_custom=allow, version=ver) if cat == "objects" else stix2.parse_observable(doc, allow_custom=allow, version=ver)
+                            else:
+                                cls(allow_custom=allow, **{k: v for k, v in doc.items() if k != "type" or cat == "observables"})
+                        except ALLOWED:
+                            pass
+                        except Exception:  # noqa: BLE001
+                            return False
+    return reg_snapshot() == before
+
+
+# ---- the reference scope handed to a 2.0 observable by its caller: any JSON kind, entries of any shape
+SCOPES = [None, [], ["0"], {"0": "file"}, {"0": {"type": "file"}}, {"0": {}}, {"0": {"name": "n"}}, {"0": None}, {"0": 5}, {"0": ["file"]}, {"0": stix2.v20.File(name="f")}, "0", 5, {"*": "*"},
+          {"0": {"type": None}}, {"0": {"type": 5}}, [{"0": "file"}], {"1": "file"}]
+
+
+def reference_scopes(si: int, route: int, which: int) -> bool:
+    """
+    pre: 0 <= si < len(SCOPES) and 0 <= route <= 1 and 0 <= which <= 2
+    post: _
+    """
+    si, route, which = pick(si, len(SCOPES)), pick(route, 2), pick(which, 3)
+    with Native():
+        doc = [{"type": "directory", "path": "p", "contains_refs": ["0"]}, {"type": "file", "name": "g", "parent_directory_ref": "0"},
+               {"type": "email-addr", "value": "a@b.c", "belongs_to_ref": "0"}][which]
+        ok = True
+        try:
+            if route == 0:
+                stix2.parse_observable(dict(doc), _valid_refs=copy.deepcopy(SCOPES[si]) if not hasattr(SCOPES[si], "serialize") and not isinstance(SCOPES[si], dict) else SCOPES[si], version="2.0")
+            else:
+                cls = stix2.registry.class_for_type(doc["type"], "2.0", "observables")
+                cls(_valid_refs=SCOPES[si], **doc)
+        except ALLOWED:
+            pass
+        except Exception:  # noqa: BLE001
+            ok = False
+    V.reached()
+    return ok
